@@ -191,20 +191,20 @@ def run(ctx):
             ctx.missing('R15.1', 'anchor', e)
         return
     R1 = ctx.rule('R15.1', 'one emission funnel behind every construction entry point; one constructor; literal cache geometry and type word', floor=14)
-    funnel(ctx, A, R1)
-    r15_2(ctx, A)
-    r15_3(ctx)
+    ctx.step(funnel, ctx, A, R1)
+    ctx.step(r15_2, ctx, A)
+    ctx.step(r15_3, ctx)
     # one cache per builder, created by the single constructor with literal geometry: a second creation site (per entry point) makes
     # the emitted bytes depend on which constructor-like convenience was used
     import rules.C12 as C12
-    C12.r12_3_6(ctx, A)
+    ctx.step(C12.r12_3_6, ctx, A)
     # "the bytes are a function of the ACCEPTED calls" needs rejected calls to leave no trace: R06.3 / R06.5 (mode constants)
     import rules.C06 as C06
     chk, add, ins = C06.find_check_fn(ctx, A, 'R06.1')
     lastf = C06.last_field(lib, A)
     if chk is not None and lastf is not None:
         ctx.rule('R06.5', 'set front ends reach the set entry point (no duplicate check), map front ends the map entry point', floor=12)
-        C06.r06_1_2_3(ctx, A, chk, lastf)
-        C06.r06_3_dominance(ctx, A, chk, add, ins)
+        ctx.step(C06.r06_1_2_3, ctx, A, chk, lastf)
+        ctx.step(C06.r06_3_dominance, ctx, A, chk, add, ins)
         ctx.rule('R06.5', 'set front ends reach the set entry point (no duplicate check), map front ends the map entry point', floor=12)
-        C06.r06_5(ctx, A, add, ins)
+        ctx.step(C06.r06_5, ctx, A, add, ins)
